@@ -34,6 +34,32 @@ def run(c, mk):
         _res.append('RuntimeError')
     except Exception:
         _res.append('Exception')
+def guard(f):
+    try:
+        return f()
+    except StopIteration:
+        return 'StopIteration'
+    except ZeroDivisionError:
+        return 'ZeroDivisionError'
+    except IndexError:
+        return 'IndexError'
+    except KeyError:
+        return 'KeyError'
+    except TypeError:
+        return 'TypeError'
+    except ValueError:
+        return 'ValueError'
+    except RuntimeError:
+        return 'RuntimeError'
+    except Exception:
+        return 'Exception'
+def run2(c, mk):
+    # the same cell through an explicit iterator which is looked at again afterwards: the consumer must leave it
+    # positioned right after the last item it took (exhausted, if it ran to the end)
+    _log.append('#2')
+    it = guard(lambda: iter(mk()))
+    _res.append(guard(lambda: c(it)))
+    _res.append(('rest', guard(lambda: list(it)), guard(lambda: next(it, 'done'))))
 def boom(x, n, kind):
     if x == n:
         if kind == 1:
@@ -134,7 +160,7 @@ func (p c05Producer) def(idx int, strs bool) (string, string) {
 		case "ZeroDivisionError":
 			sb.WriteString("    1 // 0\n")
 		case "return":
-			sb.WriteString("    return 99\n")
+			sb.WriteString("    return (99, 98)\n")
 		}
 		if p.n == 0 {
 			sb.WriteString("    if False:\n        yield 0\n")
@@ -239,7 +265,7 @@ func c05Matrix(r *Run) {
 			if cons.iter {
 				mk = "iter(" + mk + ")"
 			}
-			lines = append(lines, fmt.Sprintf("run(c_%s, lambda: %s)\n", cons.name, mk))
+			lines = append(lines, fmt.Sprintf("run(c_%s, lambda: %s)\nrun2(c_%s, lambda: %s)\n", cons.name, mk, cons.name, mk))
 			ids = append(ids, cons.name+":"+p.id())
 			plist = append(plist, p)
 		}
@@ -353,7 +379,8 @@ func (h *c05Hist) genBody(depth int, inner []string) string {
 			fmt.Fprintf(&sb, "if len(_log) %% %d == 0:\n    _log.append('z')\n    1 // 0\n", g.Int(2, 4))
 		case 6:
 			h.kinds["return-value"] = true
-			fmt.Fprintf(&sb, "if len(_log) %% %d == 1:\n    return %d\n", g.Int(2, 5), h.nid())
+			// the value may be a tuple: it is one value, not the argument list of the StopIteration
+			fmt.Fprintf(&sb, "if len(_log) %% %d == 1:\n    return %s\n", g.Int(2, 5), strings.ReplaceAll(g.Str("%d", "%d", "(%d, 2)", "(%d,)", "()", "[%d]", "'r%d'", "((%d, 1), 2)"), "%d", fmt.Sprint(h.nid())))
 		}
 	}
 	return sb.String()
